@@ -290,6 +290,10 @@ impl Case {
         }
         out
     }
+    fn quote(&self, s: &str) -> String {
+        let q = if self.quote == 1 { '\'' } else { '"' };
+        format!("{q}{s}{q}")
+    }
     fn esc_attr(&self, s: &str) -> String {
         let q = if self.quote == 1 { '\'' } else { '"' };
         let mut out = String::new();
@@ -301,6 +305,9 @@ impl Case {
                 '\'' if q == '\'' => out.push_str("&apos;"),
                 '>' if self.esc == 1 => out.push_str("&gt;"),
                 'S' if self.esc == 1 => out.push_str("&#x53;"),
+                // character references inside the words the reader compares (`false`, `bgpfu-fltr:`)
+                'f' if self.esc == 1 => out.push_str("&#102;"),
+                'e' if self.esc == 1 => out.push_str("&#x65;"),
                 c => out.push(c),
             }
         }
@@ -314,7 +321,8 @@ impl Case {
         for a in &s.attrs {
             out.push(' ');
             match a {
-                GAttr::Ns => out.push_str(&format!("xmlns:jcmd={}", self.esc_attr(JCMD))),
+                // namespace names are written plainly: quick-xml compares the raw attribute value
+                GAttr::Ns => out.push_str(&format!("xmlns:jcmd={}", self.quote(JCMD))),
                 GAttr::Active(v) => out.push_str(&format!("jcmd:active={}", self.esc_attr(v))),
                 GAttr::Comment(v) => out.push_str(&format!("jcmd:comment={}", self.esc_attr(v))),
                 GAttr::AltActive(v) => out.push_str(&format!("j:active={}", self.esc_attr(v))),
@@ -328,7 +336,7 @@ impl Case {
                     self.esc_attr("1700000000")
                 )),
                 GAttr::Other(1) => out.push_str(&format!("inactive={}", self.esc_attr("inactive"))),
-                GAttr::Other(2) => out.push_str(&format!("xmlns:y={}", self.esc_attr("urn:y"))),
+                GAttr::Other(2) => out.push_str(&format!("xmlns:y={}", self.quote("urn:y"))),
                 GAttr::Other(3) => out.push_str(&format!("x:active={}", self.esc_attr("false"))),
                 GAttr::Other(4) => out.push_str(&format!("active={}", self.esc_attr("false"))),
                 GAttr::Other(5) => out.push_str(&format!(
